@@ -53,6 +53,8 @@ func (dpq *DelayedPriorityQueue) Enqueue(
 			dpq.currentWindowCounter, dpq.strategy.WindowQuota)
 
 	dpq.ensureWindowIsUpdated()
+	// requests already waiting are served before a newcomer may take a slot
+	dpq.processQueueItems()
 
 	// Requests are processed in current window, if quota allows for it
 	if dpq.currentWindowCounter < dpq.strategy.WindowQuota {
